@@ -415,6 +415,26 @@ func (x *Exec) step(fr *Frame, st *State, in ssa.Instruction) {
 			x.fail("store to package-level variable %s", gp.G.Name())
 		}
 		st.store(p, pt, x.fnTerm(st, v))
+	case *ssa.Send:
+		// a send is recorded in ghost state: gint("sent", ch) counts the sends, gint("sentlast<comp>", ch) holds the
+		// last value sent (scalar components only). Blocking is not modelled.
+		ch, ok := x.val(fr, st, n.Chan).(*Term)
+		if !ok {
+			x.fail("send on an unsupported channel value")
+		}
+		x.note("channel send: recorded in ghost state (count and last value); blocking and the receiver are not modelled", fr.fn.Name())
+		cnt := st.arr("G|sent", ArrayS(IntS, IntS))
+		st.setArr("G|sent", Store(cnt, ch, Add(Select(cnt, ch), IntLit(1))))
+		et := n.Chan.Type().Underlying().(*types.Chan).Elem()
+		cs := comps(et)
+		vs := toComps(et, x.fnTerm(st, x.val(fr, st, n.X)))
+		for i, c := range cs {
+			if c.sort.Kind != SInt {
+				continue
+			}
+			name := "G|sentlast" + c.suffix
+			st.setArr(name, Store(st.arr(name, ArrayS(IntS, IntS)), ch, vs[i]))
+		}
 	case *ssa.UnOp:
 		fr.regs[n] = x.unop(fr, st, n)
 	case *ssa.BinOp:
